@@ -31,9 +31,9 @@ Section C01.
   Notation E := (empty obj bytes).
 
   (* MAIN.  For every datastore kind, every history from the empty repository that satisfies the guard
-     (no operation writes an artifact path that another dataset's record points at; no ingest of a dataset
-     the datastore already holds), every dataset that is still held reads back as exactly the object
-     stored under it. *)
+     (no operation writes an artifact path that another dataset's record points at -- nothing else: the clause
+     "no ingest of a dataset the datastore already holds" is gone since commit 2da36a1), every dataset that is
+     still held reads back as exactly the object stored under it. *)
   Theorem get_returns_stored : forall c h id o,
     guard c E h = true ->
     aget N.eqb (orig (run c E h)) id = Some o ->
@@ -72,49 +72,39 @@ Section C01.
     aget N.eqb (reg (run c s h)) id = Some i.
   Proof. exact (identity_stable_p obj bytes enc dec size path_of ext_of). Qed.
 
-  (* a refused operation changes nothing -- partial: not for the ingest of a dataset already held *)
+  (* a refused operation changes NOTHING -- at full strength, for every operation and every datastore kind (since
+     commit 2da36a1 the ingest of a dataset already held is refused before any file is transferred) *)
+  Theorem refused_noop : forall c s x s' e, step c s x = (s', Refused e) -> s' = s.
+  Proof. exact (refused_noop_p obj bytes enc dec size path_of ext_of). Qed.
+
+  (* the earlier, weaker statement (kept: other records refer to it) *)
   Theorem refused_noop_partial : forall c s x s' e,
     step c s x = (s', Refused e) -> reingest obj bytes s x = false -> s' = s.
   Proof. exact (refused_noop_partial_p obj bytes enc dec size path_of ext_of). Qed.
 
-  (* ... lifted: the EXACT effect of every refused operation.  Either the state is identical, or the operation is
-     the ingest of a dataset the (file / chained) datastore already holds, it is refused with Conflict, and the one
-     and only change is that the artifact at the path the ingest was going to write is gone *)
-  Theorem refused_exact : forall c s x s' e,
-    step c s x = (s', Refused e) ->
-    s' = s
-    \/ exists mv id i b p,
-         x = Ingest obj bytes mv id i b /\ has_rec obj bytes s id = true /\ c_kind c <> KMem
-         /\ file_path path_of ext_of i (c_fmt c) = FOk p /\ e = Conflict /\ s' = drop_artifact obj bytes s p.
-  Proof. exact (refused_exact_p obj bytes enc dec size path_of ext_of). Qed.
-
-  (* what that means for the observables: registry identities, tag membership, records, in-memory store, the
-     specification field and `held` never change under a refused operation; the artifacts change only for the
-     re-ingest; and a dataset reads back differently afterwards only if its record points at the lost path, in
-     which case the file datastore answers NotFound *)
-  Theorem refused_effect : forall c s x s' e,
-    step c s x = (s', Refused e) ->
-    reg s' = reg s /\ tags s' = tags s /\ recs s' = recs s /\ mem s' = mem s /\ orig s' = orig s
-    /\ (forall id, held obj bytes c s' id = held obj bytes c s id)
-    /\ (reingest obj bytes s x = false -> fs s' = fs s)
-    /\ (forall id, get c s' id <> get c s id ->
-          exists mv k i b p, x = Ingest obj bytes mv k i b /\ has_rec obj bytes s k = true
-                             /\ file_path path_of ext_of i (c_fmt c) = FOk p /\ uses_path obj bytes s id p = true
-                             /\ get_file obj bytes dec size s' id = Fail NotFound).
-  Proof. exact (refused_effect_p obj bytes enc dec size path_of ext_of). Qed.
-
-  (* a refused operation (the re-ingest included) never changes what ANOTHER dataset reads back as, when no other
-     record shares the path it was going to write *)
+  (* a refused operation never changes what ANY dataset reads back as, whether it is held, or what was stored under it
+     -- no guard *)
   Theorem refused_frame : forall c s x s' e id,
     step c s x = (s', Refused e) ->
-    collision_free obj bytes path_of ext_of c s x = true -> touches obj bytes x id = false ->
-    get c s' id = get c s id.
+    get c s' id = get c s id /\ held obj bytes c s' id = held obj bytes c s id
+    /\ aget N.eqb (orig s') id = aget N.eqb (orig s) id.
   Proof. exact (refused_frame_p obj bytes enc dec size path_of ext_of). Qed.
 
-  (* histories: every refused operation other than a re-ingest can be erased from any history, from any state *)
+  (* histories: EVERY refused operation can be erased from any history, from any state *)
   Theorem erase_refused_same : forall c h s,
     run c s (erase_refused obj bytes enc dec size path_of ext_of c s h) = run c s h.
   Proof. exact (erase_refused_same_p obj bytes enc dec size path_of ext_of). Qed.
+
+  (* the model variant WITHOUT the fix (step_unfixed), exactly: it differs from `step` only for the ingest of a dataset
+     a file / chained datastore already holds, where `step` returns the identical state and the variant loses the
+     artifact at the path the ingest was going to write (registry, tags, records, in-memory store untouched) *)
+  Theorem unfixed_exact : forall c s x,
+    step_unfixed obj bytes enc dec size path_of ext_of c s x = step c s x
+    \/ exists mv id i b p,
+         x = Ingest obj bytes mv id i b /\ has_rec obj bytes s id = true /\ c_kind c <> KMem
+         /\ file_path path_of ext_of i (c_fmt c) = FOk p /\ step c s x = (s, Refused Conflict)
+         /\ step_unfixed obj bytes enc dec size path_of ext_of c s x = (drop_artifact obj bytes s p, Refused Conflict).
+  Proof. exact (unfixed_exact_p obj bytes enc dec size path_of ext_of). Qed.
 End C01.
 
 Print Assumptions get_returns_stored.
@@ -123,11 +113,11 @@ Print Assumptions put_stores_object.
 Print Assumptions frame_put_delete.
 Print Assumptions frame_remove.
 Print Assumptions identity_stable.
+Print Assumptions refused_noop.
 Print Assumptions refused_noop_partial.
-Print Assumptions refused_exact.
-Print Assumptions refused_effect.
 Print Assumptions refused_frame.
 Print Assumptions erase_refused_same.
+Print Assumptions unfixed_exact.
 
 (* ---- refuted without the guard (witnesses replayed on the implementation: corpus/C01/01..03) ---------- *)
 
@@ -149,13 +139,21 @@ Theorem get_wrong_content_refuted :
 Proof. exact get_wrong_content_refuted_p. Qed.
 Print Assumptions get_wrong_content_refuted.
 
-(* the refused ingest of a held dataset removes its artifact *)
-Theorem refused_reingest_refuted :
+(* tie T: the model compared with the implementation (`cstep`) is the repaired `step` only while the flag REGENERATED
+   from FileDatastore._finishIngest says that held datasets are refused before any file is transferred; reverting
+   commit 2da36a1 regenerates the flag as false, `cstep` becomes the variant below and this proof fails *)
+Theorem refused_noop_impl : forall tbl c s x s' e, cstep tbl c s x = (s', Refused e) -> s' = s.
+Proof. exact refused_noop_impl_p. Qed.
+Print Assumptions refused_noop_impl.
+
+(* WITHOUT the fix (variant step_unfixed) the refused ingest of a held dataset removes its artifact: the old defect
+   F-C01-reingest, kept as a witness on the variant only *)
+Theorem refused_noop_refuted_without_fix :
   exists c s x s' e id o,
-    cstep wit_sizes c s x = (s', Refused e) /\ cget c s id = Got o /\ cget c s' id = Fail NotFound
+    cstep_unfixed wit_sizes c s x = (s', Refused e) /\ s' <> s /\ cget c s id = Got o /\ cget c s' id = Fail NotFound
     /\ held cobj cbytes c s' id = true.
-Proof. exact refused_reingest_refuted_p. Qed.
-Print Assumptions refused_reingest_refuted.
+Proof. exact refused_noop_refuted_without_fix_p. Qed.
+Print Assumptions refused_noop_refuted_without_fix.
 
 (* ---- the file template (regenerated default template and sanitising tables) --------------------------- *)
 
@@ -245,6 +243,13 @@ Example guard_satisfiable :
   /\ cget wit_cfg (crun wit_sizes wit_cfg (empty cobj cbytes) wit_clean) 2%N = Got 2%N
   /\ held cobj cbytes wit_cfg (crun wit_sizes wit_cfg (empty cobj cbytes) wit_clean) 2%N = true.
 Proof. exact guard_satisfiable_p. Qed.
+
+(* the same re-ingest on the repaired model: refused, identical state, the stored dataset still reads back *)
+Example reingest_refused_intact :
+  let s := crun wit_sizes wit_cfg (empty cobj cbytes) [cPut 1%N id_CamA 1%N] in
+  cstep wit_sizes wit_cfg s (cIngest false 1%N id_CamA (0%N, 2%N, 13%Z)) = (s, Refused Conflict)
+  /\ cget wit_cfg s 1%N = Got 1%N.
+Proof. exact reingest_refused_intact_p. Qed.
 
 Example sane_example : sane "HSC-R1_a".
 Proof. unfold sane. vm_compute. repeat split; reflexivity. Qed.
